@@ -489,7 +489,7 @@ def main(tier, seed, t0):
         plan = {"py": 640, "pymulti": 400, "js": 360, "meta-python": 100, "meta-javascript": 60}
         node_every = 0
     else:
-        plan = {"py": 30000, "pymulti": 18000, "js": 18000, "meta-python": 3000, "meta-javascript": 1500}
+        plan = {"py": 36000, "pymulti": 16000, "js": 20000, "meta-python": 3000, "meta-javascript": 1500}
         node_every = 4
     args = []
     per = lambda k: max(1, plan[k] // n + 1)
